@@ -35,6 +35,13 @@ EXTRA = [
     dict(name="x/getitem-list-index", body="out = x[ix]", leaves=[["x", [3]]], setup="ix = [0, 0, 2]"),
     dict(name="x/einsum", body="out = mg.einsum('i,i->i', x, y)", leaves=[["x", [2]], ["y", [2]]]),
     dict(name="x/neg-neg", body="out = -(-x)", leaves=[["x", [2]]]),
+] + [
+    # same-shape operands under a where= mask (pass-through gradients of two operands must still be distinct arrays)
+    dict(name="x/where-same-shape/%s/%s/%dd" % (op, kind, len(shp)), body="out = mg.%s(x, y, where=M, out=%s)" % (op, tgt), leaves=[["x", shp], ["y", shp]],
+         carrs=[["o", shp]], setup="M = np.array(%r)\not = mg.Tensor(o.copy())" % (mask,))
+    for op in ("add", "subtract", "multiply", "maximum")
+    for tgt, kind in (("o", "np"), ("ot", "mg"))
+    for shp, mask in (([3], [True, False, True]), ([2, 2], [[True, False], [True, True]]))
 ]
 
 
@@ -73,7 +80,7 @@ def run_one(cs, mg, res):
             before_keys = set(env)
             exec(cs["setup"], env)
             for k in set(env) - before_keys:
-                if not k.startswith("__"):
+                if not k.startswith("__") and k not in out_targets:
                     setup_vals[k] = env[k]
         setup_copy = {k: copy.deepcopy(v) for k, v in setup_vals.items()}
         tens = {}
@@ -197,10 +204,10 @@ for name, shape in CS.get("carrs", []):
     carr[name] = rng.rand(*shape) * 0.5 + 0.25; env[name] = carr[name]
 keys = set(env)
 if CS.get("setup"): exec(CS["setup"], env)
-setup_vals = {k: env[k] for k in set(env) - keys if not k.startswith("__")}
+out_t = CS["body"].split("out=")[1].split(",")[0].split(")")[0].strip() if "out=" in CS["body"] else None
+setup_vals = {k: env[k] for k in set(env) - keys if not k.startswith("__") and k != out_t}
 setup_copy = {k: copy.deepcopy(v) for k, v in setup_vals.items()}
 tens = {n: mg.Tensor(a) for n, a in owned.items()}; env.update(tens)
-out_t = CS["body"].split("out=")[1].split(",")[0].split(")")[0].strip() if "out=" in CS["body"] else None
 s_owned = {n: a.copy() for n, a in owned.items()}; s_carr = {n: a.copy() for n, a in carr.items() if n != out_t}
 s_data = {n: t.data.copy() for n, t in tens.items()}
 bad = []
